@@ -34,7 +34,7 @@ func main() {
 		Rule: "case = generated store configuration (sector/block size, old/current/new/spare, policy, index backend and size, flat/hierarchical, raw/CAS factory) x generated history of Put (good, size mismatch, hash mismatch, source error, arbitrary chunkings)/Get/FindMissing/GetFromComposite, sequential (group seq) or by 2-8 concurrent clients on <=4 keys with yields inside device I/O and upload sources (group conc); " +
 			"distinct = hash of (configuration, operation kinds and sizes); non-trivial = the history contains a read that returned bytes after at least one block rotation or a failed upload that was probed",
 		Workers:     12,
-		Floors:      map[string]int64{"reads_with_bytes": 2000, "failed_uploads_probed": 300, "rotations": 300, "composite_child_reads": 100, "conc_reads_with_bytes": 500, "shared_sector_pairs": 200},
+		Floors:      map[string]int64{"reads_with_bytes": 2000, "failed_uploads_probed": 300, "rotations": 300, "composite_child_reads": 100, "conc_reads_with_bytes": 500, "shared_sector_pairs": 200, "uploads_ok": 2000, "adjacent_triples": 300},
 		Assumptions: []string{"the simulated block device is linearizable per call", "register recency (latest value wins) is not part of C01 and is not asserted"},
 		Race:        true,
 		Body:        body,
@@ -182,7 +182,8 @@ func adjacent(ctx context.Context, w *run.Worker) {
 		for _, i := range perms[t.order] {
 			close(ups[i].gate)
 			if err := <-ups[i].done; err != nil {
-				c.Violation("localstore.Put:good-upload-refused", "adjacent upload %d failed: %v", i, err)
+				w.Count("observed_good_upload_refused", 1) // not promised by C01
+				_ = err
 			}
 			// everything completed so far must read back exactly
 			for _, j := range perms[t.order] {
@@ -198,7 +199,11 @@ func adjacent(ctx context.Context, w *run.Worker) {
 		for i := 0; i < 3; i++ {
 			got, err := asm.GetBytes(ctx, s.BA, ups[i].d)
 			if err != nil {
-				c.Violation("localstore.Get:adjacent-upload-lost", "upload %d is not readable: %v", i, err)
+				if asm.IsNotFound(err) {
+					w.Count("observed_adjacent_upload_not_found", 1) // NOT_FOUND is always acceptable for C01
+				} else {
+					c.Violation("localstore.Get:unexpected-error-sequential", "adjacent upload %d is not readable: %v", i, err)
+				}
 			} else if string(got) != string(ups[i].data) {
 				c.Violation("localstore.Get:wrong-bytes-adjacent-uploads", "upload %d (size %d) reads back %x, want %x (sizes %v, completion order %v)", i, sizes[i], got, ups[i].data, sizes, perms[t.order])
 			}
@@ -426,7 +431,8 @@ func seqCase(ctx context.Context, w *run.Worker, c *run.Case) {
 				up.failed = true
 				w.Count("uploads_failed", 1)
 				if mode < 6 && !okAllocErr(err) {
-					c.Violation("localstore.Put:good-upload-refused", "a valid upload failed with %v", err)
+					// C01 does not promise that uploads succeed: observed only.
+					w.Count("observed_good_upload_refused", 1)
 				}
 				// A failed upload must not be visible.
 				if !anyOK(km) || acStyle {
@@ -764,7 +770,7 @@ func concCase(ctx context.Context, w *run.Worker, c *run.Case) {
 				c.Violation("localstore.Put:bad-upload-acknowledged", "concurrent Put with failure mode %d returned nil", ev.badMode)
 			}
 			if !ev.ok && ev.badMode == 0 && !okAllocErr(ev.err) {
-				c.Violation("localstore.Put:good-upload-refused", "a valid concurrent upload failed with %v", ev.err)
+				w.Count("observed_good_upload_refused", 1) // not promised by C01
 			}
 		case "get":
 			if ev.err != nil {
